@@ -154,7 +154,6 @@ Section Rollback.
   Hypothesis HI : Inv regs st E D.
   Hypothesis HH : HInv st D.
   Hypothesis Hpos : pos_ok D.
-  Hypothesis Hall : forall ss, In ss regs -> n <= ss_number ss.
   Hypothesis Hnd : NoDup (map (fun x => (ss_type x, ss_script x)) regs).
   (* an input names a transaction at a lower position (block number, index in the block) *)
   Hypothesis Hearlier : forall bn ti tr inp g, In (bn, ti, tr) D -> In inp (t_inputs tr) -> In g D -> t_id (snd g) = fst inp ->
@@ -200,18 +199,22 @@ Section Rollback.
     - eexists. apply entry_ops_output. exact Hio.
   Qed.
 
+  Definition set_op (ss : script_status) : list wop := if n <=? ss_number ss then [W_set_script (ss_script ss) (ss_type ss) n] else [].
+
+  Lemma set_op_only_sets ss op : In op (set_op ss) -> op = W_set_script (ss_script ss) (ss_type ss) n.
+  Proof. unfold set_op. destruct (n <=? ss_number ss); [intros [H|[]]; symmetry; exact H | intros []]. Qed.
+
   Definition seg (ss : script_status) : list wop :=
     flat_map (fun e => ok_ops (rollback_entry_ops st (ss_type ss) (ss_script ss) e)) (script_history_desc st (ss_type ss) (ss_script ss) n)
-    ++ [W_set_script (ss_script ss) (ss_type ss) n].
+    ++ set_op ss.
 
-  Lemma rollback_scripts_flat : forall l, (forall ss, In ss l -> n <= ss_number ss) -> rollback_scripts st n l = Ok (flat_map seg l).
+  Lemma rollback_scripts_flat : forall l, rollback_scripts st n l = Ok (flat_map seg l).
   Proof.
-    induction l as [|ss l IH]; intros Hl; [reflexivity|]. cbn [rollback_scripts flat_map].
-    destruct (N.leb_spec n (ss_number ss)) as [_|Hgt]; [|specialize (Hl ss (or_introl eq_refl)); lia].
+    induction l as [|ss l IH]; [reflexivity|]. cbn [rollback_scripts flat_map].
     destruct (map_res_ops_ok (rollback_entry_ops st (ss_type ss) (ss_script ss)) (script_history_desc st (ss_type ss) (ss_script ss) n)) as [a Ha];
       [intros e He; apply entry_ok; exact He|].
-    rewrite Ha. cbn [bind]. rewrite IH by (intros ss' Hin; apply Hl; right; exact Hin). cbn [bind].
-    unfold seg. rewrite <- (map_res_ops_flat _ _ _ Ha), <- app_assoc. reflexivity.
+    rewrite Ha. cbn [bind]. rewrite IH. cbn [bind].
+    unfold seg, set_op. rewrite <- (map_res_ops_flat _ _ _ Ha), <- !app_assoc. reflexivity.
   Qed.
 
   (* membership in a segment *)
@@ -223,7 +226,7 @@ Section Rollback.
       pays reg (ss_type ss) (ss_script ss) po /\
       k = (ss_type ss, ss_script ss, fst (fst g), snd (fst g), snd inp) /\ v = fst inp.
   Proof.
-    unfold seg. intros H. apply in_app_or in H. destruct H as [H|[H|[]]]; [|discriminate].
+    unfold seg. intros H. apply in_app_or in H. destruct H as [H|H]; [|apply set_op_only_sets in H; discriminate].
     apply in_flat_map in H. destruct H as [e [He H]]. apply script_history_desc_in in He. destruct He as [He Hf].
     destruct e as [[[[[[a1 a2] bn] ti] ci] io] t]. apply andb_true_iff in Hf. destruct Hf as [Hf F3]. apply andb_true_iff in Hf.
     destruct Hf as [F1 F2]. apply N.eqb_eq in F1, F2. apply N.leb_le in F3. subst a1 a2.
@@ -237,7 +240,7 @@ Section Rollback.
   Lemma seg_del ss k : In (W_del_cell k) (seg ss) ->
     exists bn ti ci v, In ((ss_type ss, ss_script ss, bn, ti, ci, 1), v) (history st) /\ n <= bn /\ k = (ss_type ss, ss_script ss, bn, ti, ci).
   Proof.
-    unfold seg. intros H. apply in_app_or in H. destruct H as [H|[H|[]]]; [|discriminate].
+    unfold seg. intros H. apply in_app_or in H. destruct H as [H|H]; [|apply set_op_only_sets in H; discriminate].
     apply in_flat_map in H. destruct H as [e [He H]]. apply script_history_desc_in in He. destruct He as [He Hf].
     destruct e as [[[[[[a1 a2] bn] ti] ci] io] t]. apply andb_true_iff in Hf. destruct Hf as [Hf F3]. apply andb_true_iff in Hf.
     destruct Hf as [F1 F2]. apply N.eqb_eq in F1, F2. apply N.leb_le in F3. subst a1 a2.
@@ -345,17 +348,17 @@ Section Rollback.
     apply in_split in He2. destruct He2 as [L1 [L2 HL]].
     pose proof (script_history_desc_sorted st (ss_type ss) (ss_script ss) n) as Hsorted.
     set (ge := fun e => ok_ops (rollback_entry_ops st (ss_type ss) (ss_script ss) e)).
-    assert (Hseg : seg ss = flat_map ge L1 ++ W_del_cell k :: (W_del_hist (kty, ks, b, i, oi, 1) :: flat_map ge L2 ++ [W_set_script (ss_script ss) (ss_type ss) n])).
+    assert (Hseg : seg ss = flat_map ge L1 ++ W_del_cell k :: (W_del_hist (kty, ks, b, i, oi, 1) :: flat_map ge L2 ++ set_op ss)).
     { unfold seg. fold ge. rewrite HL, flat_map_app. cbn [flat_map]. unfold ge at 2, e2. rewrite entry_ops_output by discriminate.
       cbn [ok_ops]. rewrite A, B. rewrite <- !app_assoc. reflexivity. }
-    set (tail2 := (W_del_hist (kty, ks, b, i, oi, 1) :: flat_map ge L2 ++ [W_set_script (ss_script ss) (ss_type ss) n]) ++ flat_map seg r2).
+    set (tail2 := (W_del_hist (kty, ks, b, i, oi, 1) :: flat_map ge L2 ++ set_op ss) ++ flat_map seg r2).
     assert (Hall_eq : all_ops = (flat_map seg r1 ++ flat_map ge L1) ++ W_del_cell k :: tail2).
     { unfold all_ops, tail2. rewrite Hr, flat_map_app. cbn [flat_map]. rewrite Hseg, <- !app_assoc. reflexivity. }
     rewrite Hall_eq. apply cells_deleted_get.
     intros v' Hput. unfold tail2 in Hput. apply in_app_or in Hput. destruct Hput as [Hput|Hput].
     - (* a later entry of the same script cannot restore this key: its position is above the key's *)
       destruct Hput as [Hput|Hput]; [discriminate|].
-      apply in_app_or in Hput. destruct Hput as [Hput|[Hput|[]]]; [|discriminate].
+      apply in_app_or in Hput. destruct Hput as [Hput|Hput]; [|apply set_op_only_sets in Hput; discriminate].
       apply in_flat_map in Hput. destruct Hput as [e1 [He1 Hput]].
       assert (He1' : In e1 (script_history_desc st (ss_type ss) (ss_script ss) n)) by (rewrite HL; apply in_or_app; right; right; exact He1).
       pose proof (sorted_split_after _ _ _ _ Hsorted HL e1 He1) as Hle.
@@ -496,11 +499,11 @@ Theorem rollback_restores_index regs bs1 bs2 n :
   well_formed_chain (bs1 ++ bs2) -> refs_backwards (chain_txs (bs1 ++ bs2)) ->
   lower_positions (chain_txs (bs1 ++ bs2)) -> spent_once (chain_txs (bs1 ++ bs2)) ->
   (forall b, In b bs1 -> b_number b < n) -> (forall b, In b bs2 -> n <= b_number b) ->
-  (forall ss, In ss regs -> n <= ss_number ss) -> NoDup (map (fun x => (ss_type x, ss_script x)) regs) ->
+  NoDup (map (fun x => (ss_type x, ss_script x)) regs) ->
   exists st', rollback_to_block (fold_left filter_block (bs1 ++ bs2) (fresh_store regs)) n = Ok st' /\
               forall k, a_get ckey_eqb k (cells st') = spec_chain (reg_of regs) bs1 k.
 Proof.
-  intros Hwf Href Hlp Hso Hb1 Hb2 Hall Hnd.
+  intros Hwf Href Hlp Hso Hb1 Hb2 Hnd.
   set (st := fold_left filter_block (bs1 ++ bs2) (fresh_store regs)).
   set (D := chain_txs (bs1 ++ bs2)).
   assert (Hpos : pos_ok D) by (apply well_formed_pos_ok; exact Hwf).
@@ -509,7 +512,7 @@ Proof.
   assert (Hscripts : scripts st = regs) by exact (inv_scripts _ _ _ _ HI).
   assert (Hreg : registered st = reg_of regs) by (rewrite registered_reg_of, Hscripts; reflexivity).
   unfold rollback_to_block. rewrite Hscripts.
-  rewrite (rollback_scripts_flat regs st _ D n HI HH Hpos) by exact Hall. cbn [bind].
+  rewrite (rollback_scripts_flat regs st _ D n HI HH Hpos). cbn [bind].
   eexists. split; [reflexivity|]. intros k.
   rewrite commit_cells.
   rewrite cells_only_tail by (intros op Hin c'; destruct (n <=? min_filtered st); [destruct Hin as [<-|[]]; reflexivity | destruct Hin]).
